@@ -447,25 +447,14 @@ Record query := mk_query {
    1 resolution-attempt limit, other) / nil response / response *)
 Inductive alookup := QNone | QErr (k : N) | QNilResp | QResp (m : msg).
 
-(* the EDE names of isDNSSECFailure -> codes.  miekg/dns declares the
-   RFC 8914 constants with iota in this order (tied by the driver's
-   "edeconst" cases). *)
-Definition ede_names : list (list N) := map bs
-  [ "Other"; "UnsupportedDNSKEYAlgorithm"; "UnsupportedDSDigestType"; "StaleAnswer"; "ForgedAnswer";
-    "DNSSECIndeterminate"; "DNSBogus"; "SignatureExpired"; "SignatureNotYetValid"; "DNSKEYMissing";
-    "RRSIGsMissing"; "NoZoneKeyBitSet"; "NSECMissing"; "CachedError"; "NotReady"; "Blocked"; "Censored";
-    "Filtered"; "Prohibited"; "StaleNXDOMAINAnswer"; "NotAuthoritative"; "NotSupported";
-    "NoReachableAuthority"; "NetworkError"; "InvalidData"; "SignatureExpiredBeforeValid"; "TooEarly";
-    "UnsupportedNSEC3IterValue"; "UnableToConformToPolicy"; "Synthesized"; "InvalidQueryType" ]%string.
-Fixpoint index_of (x : list N) (l : list (list N)) (i : N) : option N :=
-  match l with
-  | [] => None
-  | y :: r => if list_eqb x y then Some i else index_of x r (i + 1)
-  end.
-Definition ede_code (name : list N) : option N := index_of name ede_names 0.
-Definition dnssec_failure_codes : list N := somes (map ede_code dnssec_failure_ede_names).
-Definition ede_forged : N := 4.
-Definition ede_cached : N := 13.
+(* the EDE codes of the `switch ede.InfoCode` in isDNSSECFailure (srcgen with
+   full_imports evaluates the dns.ExtendedErrorCode… constants; an arm counts
+   when it returns true), the code hasExtendedError is asked for in
+   isCachedFailureResponse, and the code synthesise attaches *)
+Definition dnssec_failure_codes : list N :=
+  map (fun p => Z.to_N (fst p)) (filter (fun p => Z.eqb (snd p) 1) dnssec_failure_switch).
+Definition ede_forged : N := synth_ede.
+Definition ede_cached : N := cached_failure_ede.
 
 Definition rcode_servfail : N := 2.
 Definition rcode_nxdomain : N := 3.
